@@ -19,6 +19,13 @@ func nominal(tag string, c *Class) bool {
 	if err != nil {
 		return false
 	}
+	if strings.HasSuffix(tag, "/crlf") {
+		if !c.CRLF || !strings.Contains(c.Text, "\r\n") {
+			return false
+		}
+		tag = strings.TrimSuffix(tag, "/crlf")
+		parts = strings.Split(tag, "/")
+	}
 	acc := strings.HasSuffix(tag, "/accessor-named")
 	for i := range c.Methods {
 		m := &c.Methods[i]
@@ -80,7 +87,7 @@ func nominal(tag string, c *Class) bool {
 }
 
 func TestBoundaryPoints(t *testing.T) {
-	if BoundaryCount() < 200 || BoundaryCount() > 360 {
+	if BoundaryCount() < 200 || BoundaryCount() > 400 {
 		t.Fatalf("boundary points: %d", BoundaryCount())
 	}
 	t.Logf("%d boundary points", BoundaryCount())
